@@ -680,7 +680,7 @@ func genPipeline(t *rapid.T, proto string, envs map[string]*wire.GenEnv, maxPhas
 		var pool []plDatagram
 		for _, ph := range c.Phases {
 			for _, d := range ph {
-				if d.Proto == "" && (d.Class == "valid" || d.Class == "partial") && len(d.Data) <= 9000 {
+				if d.Proto == "" && (d.Class == "valid" || d.Class == "partial") && len(d.Data) <= 60000 {
 					pool = append(pool, d)
 				}
 			}
@@ -698,6 +698,26 @@ func genPipeline(t *rapid.T, proto string, envs map[string]*wire.GenEnv, maxPhas
 				}
 				total += ms
 				quiet[rapid.IntRange(1, len(quiet)-1).Draw(t, "spellat")].PauseMS += ms
+			}
+			// what a worker holds on to when it goes idle depends on what it did last: in half of the cases every worker
+			// has (in all likelihood) just handled the largest datagram of the case when a spell begins
+			big := -1
+			for i := range pool {
+				if len(pool[i].Data) >= 4000 && (big < 0 || len(pool[i].Data) > len(pool[big].Data)) {
+					big = i
+				}
+			}
+			if big >= 0 && rapid.Bool().Draw(t, "bigbeforespell") {
+				var out []plDatagram
+				for _, d := range quiet {
+					if d.PauseMS > 0 {
+						for k := 0; k < 2*c.Workers && k < 32; k++ {
+							out = append(out, pool[big])
+						}
+					}
+					out = append(out, d)
+				}
+				quiet = out
 			}
 			c.QuietSpells = true
 			c.Phases = append(c.Phases, quiet)
